@@ -324,6 +324,25 @@ PROPS = {
         assumptions=["inputs are written by our own codec (CSR file plus transposed file, both always supplied)",
                      "read-balancing options and masters-block files are not generated"],
     ),
+    "C20": dict(
+        variants={"native": ["bfs-cpu", "sssp-cpu", "connected-components-cpu", "minimum-spanningtree-cpu", "triangle-counting-cpu",
+                             "k-core-cpu", "pagerank-pull-cpu", "pagerank-push-cpu", "maximal-independentset-cpu", "preflowpush-cpu",
+                             "bfs-push-dist", "bfs-pull-dist", "sssp-push-dist", "sssp-pull-dist", "connected-components-push-dist",
+                             "connected-components-pull-dist", "k-core-push-dist", "k-core-pull-dist"]},
+        units=[dict(type="hyp", harness="py:c20", quick=240, thorough=12000, workers=8, env={"VERIF_SHRINK_EVALS": "40"})],
+        engine="hypothesis over subprocesses (CPU apps) and MPI (distributed apps)",
+        technique="property-based differential testing: Hypothesis-generated graphs (disconnected, self loops, parallel edges, hub skew, paths, up to 400 nodes), algorithm variants, thread counts 1..16, hosts 1..4 x partition policies; applications run as subprocesses / under mpirun; answers compared with references (BFS, Dijkstra, union-find, Kruskal, brute-force triangles, peeling, max-flow, power iteration) implemented in the driver",
+        rule=("cases = (application, graph shape/size/edges, algorithm variant, threads in {1,2,4,8,16}, source/report node, parameter, hosts, "
+              "policy, push|pull); non-trivial = (>=2 components or a parallel edge/self loop) AND (threads>=2 or hosts>=2) (flow/pagerank: "
+              "threads>=2 and >=3 arcs); distinct = sha1 of the case"),
+        level_text=("bfs/sssp: report-node distance, #visited, max, sum (CPU) and full distance vectors (distributed, -output files); cc: "
+                    "component count / per-node labels; MST weight == Kruskal; triangles == brute force; k-core size / per-node flags == "
+                    "peeling; max-flow value == networkx; pagerank within tolerance of power iteration; MIS cardinality must be the size "
+                    "of some maximal independent set (brute force for n<=14). Exploration only."),
+        level_note="trusted: the reference implementations (networkx for flow/cliques), the Python .gr writer; matching, direction-optimising bfs and the pagerank-dist apps are not driven; MIS only exposes its cardinality",
+        assumptions=["input preconditions of each application's README respected (symmetric inputs with -symmetricGraph; simple graphs for triangles, k-core, independent set; transposed graph for pagerank-pull)",
+                     "pagerank definition taken from the sources: rank = 0.15 + 0.85 * sum rank(u)/outdeg(u), unnormalised"],
+    ),
 }
 
 ENGINES = [
